@@ -72,6 +72,19 @@ def case_strategy(draw):
             'ref_json': draw(st.sampled_from([0, 0, 0, 1, 2]))}
 
 
+@st.composite
+def long_batch_case(draw):
+    """Mini-batches of the default length (2^14 rows) and longer with 30-40 columns: the evaluated pairs do not depend on the row count."""
+    ncols = draw(st.integers(30, 40))
+    cols = [f'c{i}' for i in range(ncols - 1)]
+    cols.insert(draw(st.integers(0, ncols - 1)), 'label')
+    return {'cols': cols, 'nrows': draw(st.sampled_from([2**14, 2**14, 20000, 2**15])), 'seed': draw(st.integers(0, 2**32 - 1)),
+            'pairwise': draw(st.sampled_from([True, True, False])),
+            'heuristic': draw(st.sampled_from(['Constant', 'MI-numba-randomized', 'MI-numba-3mr'])),
+            'cap': draw(st.sampled_from([2**15, 2**15, 10**4 + 1, 700])), 'batches': 1, 'labels': ['label'], 'ncpus': draw(st.sampled_from([1, 4, 16])),
+            'grow': 0, 'ref_json': 0}
+
+
 def upair(a, b):
     return (a, b) if a <= b else (b, a)
 
@@ -98,7 +111,10 @@ def allowed_pairs(cols, pairwise, heuristic, label='label'):
 def oracle(case, rec):
     cols, pairwise, h, cap = case['cols'], case['pairwise'], case['heuristic'], int(case['cap'])
     rng = np.random.Generator(np.random.PCG64(int(case['seed'])))
-    df = pd.DataFrame({c: [str(int(v)) for v in rng.integers(0, 3, size=case['nrows'])] for c in cols})
+    df = pd.DataFrame({c: rng.integers(0, 3, size=case['nrows']).astype(str) for c in cols}) if case['nrows'] > 1000 else \
+        pd.DataFrame({c: [str(int(v)) for v in rng.integers(0, 3, size=case['nrows'])] for c in cols})
+    if case['nrows'] >= 2**14:
+        rec.cls('batch>=2^14-rows')
     stubs.reset_globals()
     eff_cap = min(cap, 10**4) if '3mr' in h else cap
     nb = int(case.get('batches', 1))
@@ -196,9 +212,10 @@ def _oracle_body(case, rec, cols, df, colset, labels, h, pairwise, cap, eff_cap,
                                     f'{sorted(missing)[:5]} ({len(missing)} of {len(req)})', kind='C06/missing-pair')
 
 
-KINDS = ['C06/pairs', 'C06/foreign-column', 'C06/not-requested', 'C06/constant', 'C06/mirroring', 'C06/cap', 'C06/missing-pair']
+KINDS = ['C06/pairs', 'C06/long-batch', 'C06/foreign-column', 'C06/not-requested', 'C06/constant', 'C06/mirroring', 'C06/cap', 'C06/missing-pair']
 ORACLES = {k: oracle for k in KINDS}
 
 
 def run(ctx):
-    drive(ctx, [Clause('C06/pairs', case_strategy, oracle, quick=1600, thorough=150000, quick_shards=8)])
+    drive(ctx, [Clause('C06/pairs', case_strategy, oracle, quick=1600, thorough=150000, quick_shards=8),
+                Clause('C06/long-batch', long_batch_case, oracle, quick=8, thorough=160, quick_shards=8, thorough_shards=16)])
